@@ -18,7 +18,7 @@ from mc.run import Stats
 VERIF = os.path.dirname(os.path.dirname(os.path.dirname(os.path.abspath(__file__))))
 ASSUME = [
     "8 probe texts: plain ASAP, project ALAP, two scenarios with limits, zoned resources, 15-min resolution with sub-slot efforts, a text that is rejected, a text with own JSON+CSV reports, a nested-container text with gaps",
-    "operation alphabet: parse(i) for each probe, reschedule(last), reports(last), engine(i) = scriptplan.cli.main.run_scriptplan on probe i for three probes; all histories up to depth 2 (quick) / 3 (thorough), each in one fresh interpreter",
+    "operation alphabet: parse(i) for each probe, reschedule(last), reports(last), engine(i) = scriptplan.cli.main.run_scriptplan on probe i for three probes, abort(i) = parse+schedule of probe i killed by an injected MemoryError at its second task placement (a failing earlier call); all histories up to depth 2 (quick) / 3 (thorough), each in one fresh interpreter",
     "the clock macros ${now}/${today} and Project 'now' are excluded (they are defined to depend on the wall clock)",
     "hash seeds {0,1,2,3,VERIF_SEED} in fresh processes; pure-Python and compiled extensions are compared in C13",
 ]
@@ -51,10 +51,12 @@ def probes():
 
 
 ENGINE_PROBES = (0, 5, 6)
+ABORT_PROBES = (0, 2)
 
 
 def alphabet():
-    ops = [["parse", i] for i in range(len(probes()))] + [["resched"], ["reports"]] + [["engine", i] for i in ENGINE_PROBES]
+    ops = ([["parse", i] for i in range(len(probes()))] + [["resched"], ["reports"]] + [["engine", i] for i in ENGINE_PROBES]
+           + [["abort", i] for i in ABORT_PROBES])
     return ops
 
 
@@ -62,7 +64,7 @@ def histories(depth):
     ops = alphabet()
     for d in range(0, depth + 1):
         for h in itertools.product(ops, repeat=d):
-            if h and h[0][0] in ("resched", "reports"):
+            if any(op[0] in ("resched", "reports") and (j == 0 or h[j - 1][0] == "abort") for j, op in enumerate(h)):
                 continue  # nothing to operate on
             yield list(h)
 
